@@ -390,3 +390,43 @@ func init() {
 	}
 	intrinsics["(*sync.Pool).Put"] = func(e *Engine, _ *frame, _ token.Pos, a []Value) Value { return nil }
 }
+
+// Streaming MD5 (md5.New / Write / Sum / Reset): the bytes written are
+// accumulated per digest object and hashed by the same model as md5.Sum.
+func init() {
+	acc := func(e *Engine, recv Value) *Value {
+		p, ok := recv.(*Value)
+		if !ok || p == nil {
+			panic(unsupported("md5 digest method on an unexpected receiver"))
+		}
+		if e.md5Acc == nil {
+			e.md5Acc = map[*Value][]Value{}
+		}
+		return p
+	}
+	intrinsics["(*crypto/md5.digest).Reset"] = func(e *Engine, _ *frame, _ token.Pos, a []Value) Value {
+		e.md5Acc[acc(e, a[0])] = nil
+		return nil
+	}
+	intrinsics["(*crypto/md5.digest).Write"] = func(e *Engine, _ *frame, _ token.Pos, a []Value) Value {
+		p := acc(e, a[0])
+		el := e.sliceElems(a[1])
+		e.md5Acc[p] = append(append([]Value(nil), e.md5Acc[p]...), el...)
+		return Tuple{term.Const(64, uint64(len(el))), Iface{}}
+	}
+	intrinsics["(*crypto/md5.digest).Sum"] = func(e *Engine, fr *frame, pos token.Pos, a []Value) Value {
+		p := acc(e, a[0])
+		msg := append([]Value{}, e.md5Acc[p]...)
+		d := md5Sum(e, fr, pos, []Value{msg})
+		out := append([]Value{}, e.sliceElems(a[1])...)
+		switch dv := d.(type) {
+		case Array:
+			out = append(out, dv...)
+		default:
+			panic(unsupported(fmt.Sprintf("md5 model returned %T", d)))
+		}
+		return out
+	}
+	intrinsics["(*crypto/md5.digest).Size"] = func(e *Engine, _ *frame, _ token.Pos, a []Value) Value { return term.Const(64, 16) }
+	intrinsics["(*crypto/md5.digest).BlockSize"] = func(e *Engine, _ *frame, _ token.Pos, a []Value) Value { return term.Const(64, 64) }
+}
